@@ -525,6 +525,29 @@ static int replay()
 	return 0;
 }
 
+// ---- re-entrancy: the function being solved solves another equation with Find_Root at every evaluation ---------------------------------
+static void nested(unsigned long long& unit)
+{
+	for(double c : {0.5, -1.25, 3.0})
+		for(double acc : {1e-6, 1e-12})
+			for(int rev = 0; rev < 2; rev++)
+			{
+				if(!mc::mine(unit++)) continue;
+				// inner: y with y^3 + y = x (one root, y = g(x)); outer: x with g(x) = c, i.e. x = c^3 + c
+				long long outside = 0;
+				std::function<double(double)> outer = [&](double x) {
+					if(!(x >= -50 && x <= 60)) outside++;
+					std::function<double(double)> inner = [x](double y) { return y * y * y + y - x; };
+					return Find_Root(inner, -10, 10, 1e-13) - c;
+				};
+				double r = NAN;
+				std::string key = "nested|c=" + mc::dec(c) + ",acc=" + mc::dec(acc) + ",rev=" + std::to_string(rev);
+				if(mc::library_exits([&]() { r = rev ? Find_Root(outer, 60, -50, acc) : Find_Root(outer, -50, 60, acc); })) { mc::violation("families", "families|" + key + "|valid_bracket_terminated_process", "a nested Find_Root ended the process", key); continue; }
+				double want = c * c * c + c;
+				if(!(std::fabs(r - want) <= acc + 1e-9) || outside) mc::violation("families", "families|" + key + "|nested_call_disturbs_the_outer_one", "outer root " + mc::dec(r) + " expected " + mc::dec(want) + " (" + std::to_string(outside) + " evaluations outside the bracket)", key);
+			}
+}
+
 // ---- call histories: a request does not depend on the requests made before it (accuracy, bracket, function) -------------------------------
 static void histories(unsigned long long& unit)
 {
@@ -556,6 +579,7 @@ int main(int argc, char** argv)
 	unsigned long long unit = 0;
 	adversary(unit);
 	families(unit);
+	nested(unit);
 	histories(unit);
 	diagnostics(unit);
 	return mc::finish();
